@@ -211,9 +211,21 @@ func selectIsAggregate(sel *sqlp.Select) bool {
 func (m *Model) ruleREADCAS(r *Results) {
 	const rule = "R-READ-CAS"
 	n := 0
+	// the read helpers of the read-modify-write loops (a reader inside a transaction returns its
+	// CAS to code that runs under the same lock and only on success)
+	loopReaders := map[*ssa.Function]bool{}
+	for _, lp := range m.rmwLoops() {
+		for _, rd := range lp.Reads {
+			if callee := rd.Common().StaticCallee(); callee != nil {
+				for g := range m.reachableLocal(callee) {
+					loopReaders[g] = true
+				}
+			}
+		}
+	}
 	for _, sc := range m.scanCalls() {
 		fn := sc.Fn
-		if sc.Site == nil || sc.Dests == nil || fn.Parent() != nil {
+		if sc.Site == nil || sc.Dests == nil || fn.Parent() != nil || !loopReaders[fn] {
 			continue
 		}
 		casIdx := -1
